@@ -28,7 +28,7 @@ def plan(tier):
 
 
 def n_cases(tier):
-    return 3500 if tier == 'thorough' else 600
+    return 16000 if tier == 'thorough' else 600
 
 
 def one_case(rng, tier):
